@@ -179,9 +179,10 @@ func main() {
 	}
 
 	lib.KBListHeaderStress(w, args, []string{lib.EngMem, lib.EngBadger})
+	lib.KBTwoNodeCase(w, args)
 
 	lib.KBDrive(w, args, lib.KBProfile{Prop: "C02", Malformed: 15, ErrPct: 5, AbortPct: 3,
-		Quick: 220, QuickOther: 30, Thorough: 4000, Search: 1200, Exhaustive: false,
+		Quick: 220, QuickOther: 30, Thorough: 4000, Search: 1200, Exhaustive: false, Fronts: true,
 		WrapCoq: func(coq string) string { return "(C2Sched " + coq + ")" }})
 	if err := w.Finish("schedule cases: non-trivial = a step of one client happened between two steps of another; read cases: at least one write stored while the sequencer is parked"); err != nil {
 		fmt.Fprintln(os.Stderr, err)
